@@ -18,7 +18,7 @@ fn arg<'a>(args: &'a [String], name: &str) -> Option<&'a str> {
 
 fn default_runs(prop: &str, tier: &str) -> u64 {
     let quick: u64 = match prop {
-        "C05" => 8000,
+        "C05" => 5000,
         "C06" => 20000,
         "C16" => 15000,
         "C13" => 300000,
